@@ -157,6 +157,7 @@ class SimOracle(object):
         self.same_instant_causes = 0
         self.pending_grants = {}
         self.arrivals = {}           # (obj, side) -> [(time, pid)]
+        self.dropped_at = {}         # instant -> objects that an ending process held
         self.skips = 0
         self.ops = 0
         for name, (kind, cap) in self.sc.objs.items():
@@ -460,6 +461,10 @@ class SimOracle(object):
             self.viol("C08", "C08/blocked-%s-%s/%s" % (kind, "put" if GUARD_OF_OP.get(nm) == 1 else "get-or-acquire",
                                                       "quiescence" if final else "end-of-instant"),
                       "p%d is still blocked in %s(%s) although %s" % (p.pid, nm, o, why))
+            if o in self.dropped_at.get(self.time, ()):
+                self.viol("C09", "C09/holdings-not-offered-to-waiters/%s" % kind,
+                          "a process that held %s ended in this instant, but p%d is still blocked in %s(%s) although %s"
+                          % (o, p.pid, nm, o, why))
 
     def on_quiescence(self, t):
         self.advance(fx(t[2]))
@@ -556,6 +561,9 @@ class SimOracle(object):
         for r in list(p.res):
             if self.holder.get(r) == p.pid:
                 self.holder[r] = None
+        # what it held must be offered to the waiters of those objects within this instant (C09)
+        for ob in list(p.res) + [pl for pl, amt in p.pool.items() if amt > 0]:
+            self.dropped_at.setdefault(T, set()).add(ob)
         p.res = set()
         p.pool = {}
         for n in p.notes:
